@@ -58,7 +58,27 @@ pub fn check_case(c: &HexCase, tag: usize) -> Result<(), (String, String)> {
         ram_filling: 0,
         messages: vec![],
     };
-    let path = scratch_dir().join(format!("c07-{}-{}.hex", rayon::current_thread_index().unwrap_or(0), tag % 4));
+    let path = scratch_dir().join(format!("c07-{}-{}.hex", rayon::current_thread_index().map(|i| i as i64).unwrap_or(-1), tag % 4));
+    // the output path may already hold an older, longer file (a previous build): it must be replaced
+    match tag % 3 {
+        1 => {
+            let mut old = br.clone();
+            let bigger: Vec<u8> = (0..(c.len + 40 + tag % 100)).map(|i| (i * 7) as u8).collect();
+            if c.eeprom {
+                old.eeprom = bigger;
+            } else {
+                old.code = bigger;
+            }
+            let p0 = path.clone();
+            let _ = catch_unwind(AssertUnwindSafe(|| crate::run::guarded(|| if c.eeprom { write_eeprom_hex(p0, &old) } else { write_code_hex(p0, &old) })));
+        }
+        2 => {
+            let _ = std::fs::write(&path, vec![b'#'; c.len * 3 + 100]);
+        }
+        _ => {
+            let _ = std::fs::remove_file(&path);
+        }
+    }
     let p2 = path.clone();
     let res = catch_unwind(AssertUnwindSafe(|| crate::run::guarded(|| if c.eeprom { write_eeprom_hex(p2, &br) } else { write_code_hex(p2, &br) })));
     match res {
@@ -89,7 +109,7 @@ fn size_class(len: usize) -> &'static str {
 }
 
 pub fn to_json(c: &HexCase) -> Value {
-    json!({"kind": "hex", "len": c.len, "fill": c.fill.to_string(), "eeprom": c.eeprom})
+    json!({"kind": "hex", "len": c.len, "fill": c.fill.to_string(), "eeprom": c.eeprom, "note": "replay tries all three pre-existing-file variants (none, older longer hex file, garbage)"})
 }
 
 pub fn replay(v: &Value) -> Option<Result<(), String>> {
@@ -97,7 +117,12 @@ pub fn replay(v: &Value) -> Option<Result<(), String>> {
         return None;
     }
     let c = HexCase { len: v.get("len")?.as_u64()? as usize, fill: v.get("fill")?.as_str()?.parse().ok()?, eeprom: v.get("eeprom")?.as_bool()? };
-    Some(check_case(&c, 0).map_err(|(k, e)| format!("{}: {}", k, e)))
+    for tag in 0..3 {
+        if let Err((k, e)) = check_case(&c, tag) {
+            return Some(Err(format!("{}: {} (pre-existing file variant {})", k, e, tag)));
+        }
+    }
+    Some(Ok(()))
 }
 
 pub fn run(ctx: &Ctx) -> Result<Ev, String> {
